@@ -10,4 +10,19 @@ inductive VR where
   | PN | SH | SL | SQ | SS | ST | SV | TM | UC | UI | UL | UN | UR | US | UT | UV
 deriving DecidableEq, Repr, Inhabited
 
+/-- the constructor name (= Rust `Debug` of the variant); used by the line protocol only -/
+def VR.name : VR → String
+  | .AE => "AE" | .AS => "AS" | .AT => "AT" | .CS => "CS" | .DA => "DA" | .DS => "DS" | .DT => "DT"
+  | .FL => "FL" | .FD => "FD" | .IS => "IS" | .LO => "LO" | .LT => "LT" | .OB => "OB" | .OD => "OD"
+  | .OF => "OF" | .OL => "OL" | .OV => "OV" | .OW => "OW" | .PN => "PN" | .SH => "SH" | .SL => "SL"
+  | .SQ => "SQ" | .SS => "SS" | .ST => "ST" | .SV => "SV" | .TM => "TM" | .UC => "UC" | .UI => "UI"
+  | .UL => "UL" | .UN => "UN" | .UR => "UR" | .US => "US" | .UT => "UT" | .UV => "UV"
+
+/-- all constructors, hand-written (the generated `Gen.vrAll` is compared with it in Props/C03) -/
+def VR.ctors : List VR :=
+  [.AE, .AS, .AT, .CS, .DA, .DS, .DT, .FL, .FD, .IS, .LO, .LT, .OB, .OD, .OF, .OL, .OV, .OW,
+   .PN, .SH, .SL, .SQ, .SS, .ST, .SV, .TM, .UC, .UI, .UL, .UN, .UR, .US, .UT, .UV]
+
+def VR.ofName? (s : String) : Option VR := VR.ctors.find? fun v => v.name == s
+
 end Dicom
